@@ -524,12 +524,24 @@ fn inputs(prop: &str, seed: u64, w: u32, thorough: bool) -> Inputs {
                         }
                     }
                     3 => {
-                        // top digits order one way, lower digits the other way
-                        let k = r.below(n as u64) as usize;
-                        b[k] = b[k].wrapping_add(1);
-                        if k > 0 {
-                            b[k - 1] = b[k - 1].wrapping_sub(1);
-                            b[0] = b[0].wrapping_sub(3);
+                        // a digit ordered one way, the digits below it the other way -- at every digit granularity,
+                        // so that for each digit type two ADJACENT digits differ in opposite directions under a
+                        // shared prefix of equal higher digits
+                        let g = *r.pick(&[1usize, 2, 4, 8]);
+                        let nd = n / g;
+                        if nd >= 2 {
+                            let k = 1 + r.below(nd as u64 - 1) as usize;
+                            let up = r.below(2) == 0;
+                            let bump = |v: &mut B, at: usize, inc: bool| {
+                                v[at] = if inc { v[at].wrapping_add(1) } else { v[at].wrapping_sub(1) };
+                            };
+                            bump(&mut b, k * g + r.below(g as u64) as usize, up);
+                            bump(&mut b, (k - 1) * g + r.below(g as u64) as usize, !up);
+                            if k >= 2 && r.below(2) == 0 {
+                                bump(&mut b, (k - 2) * g, up);
+                            }
+                        } else {
+                            b[0] = b[0].wrapping_add(1);
                         }
                     }
                     _ => {}
